@@ -143,7 +143,7 @@ impl Pipe {
     }
 
     /// One request through the real handler chain. A request that is not answered within `ms` — or, when
-    /// `until_panic`, within 400 ms after a panic was recorded — is dropped and reported as `TIMEOUT`.
+    /// `until_panic`, within 250 ms after a panic was recorded — is dropped and reported as `TIMEOUT`.
     fn get_t(&self, target: &str, ms: u64, until_panic: bool) -> (u16, String) {
         let req = Request::builder().method("GET").uri(target).body(Body::empty()).unwrap();
         let resources = self.manager.http_resources();
@@ -164,7 +164,7 @@ impl Pipe {
                     Ok(x) => return x,
                     Err(_) => {
                         if until_panic && panic_seen.is_none() && panics_len() > p0 { panic_seen = Some(Instant::now()); }
-                        if let Some(t) = panic_seen { if t.elapsed() > Duration::from_millis(400) { return (TIMEOUT, "timeout".into()); } }
+                        if let Some(t) = panic_seen { if t.elapsed() > Duration::from_millis(250) { return (TIMEOUT, "timeout".into()); } }
                         if t0.elapsed() > Duration::from_millis(ms) { return (TIMEOUT, "timeout".into()); }
                     }
                 }
@@ -360,7 +360,7 @@ fn run_v(dir: &std::path::Path, c: &VCase) -> VRun {
         let (st, body) = match (q.base(), q.what) {
             (None, _) => pipe.get_t("/status", 20_000, false),
             (Some(b), 'c') if !dead => pipe.get_client_gone(&q.target(b)),
-            (Some(b), _) => pipe.get_t(&q.target(b), if dead { 600 } else { 20_000 }, true),
+            (Some(b), _) => pipe.get_t(&q.target(b), if dead { 250 } else { 20_000 }, true),
         };
         let ps = panics_take();
         // an abandoned request that nobody answers is how it should be; anything else unanswered means the task is gone
